@@ -18,6 +18,8 @@ THEOREMS = [
     "BeyondVerif.C15.setForm_error_atomic",
     "BeyondVerif.C15.setFrame_unknown_atomic",
     "BeyondVerif.C15.setFrameBasic_error_atomic",
+    "BeyondVerif.C15.setFrameBasic_error_keeps_labels",
+    "BeyondVerif.C15.setFrame_error_atomic_partial",
     "BeyondVerif.C15.covSetFrame_error_atomic",
     "BeyondVerif.C15.setFrame_error_cases",
     "BeyondVerif.C15.copy_receiver_unchanged",
@@ -29,6 +31,19 @@ THEOREMS = [
     "BeyondVerif.C15.copy_separate_depth1",
     "BeyondVerif.C15.copy_separate",
     "BeyondVerif.C15.copy_shares_only_maneuver_objects",
+    "BeyondVerif.C15.copyForm_separate",
+    "BeyondVerif.C15.copyFrame_separate",
+    "BeyondVerif.C15.mut_sep",
+    "BeyondVerif.C15.muts_sep",
+    "BeyondVerif.C15.copy_then_mutations_invisible",
+    "BeyondVerif.C15.asSV_then_mutations_invisible",
+    "BeyondVerif.C15.pickle_then_mutations_invisible",
+    "BeyondVerif.C15.ctor_separate",
+    "BeyondVerif.C15.attachCov_frame",
+    "BeyondVerif.C15.attachCov_result",
+    "BeyondVerif.C15.covFrom_frame",
+    "BeyondVerif.C15.getMans_creates_new",
+    "BeyondVerif.C15.getMans_existing",
     "BeyondVerif.C15.example_heap_wf",
     "BeyondVerif.C15.asOrbit_separate",
     "BeyondVerif.C15.asSV_separate",
@@ -37,61 +52,121 @@ THEOREMS = [
     "BeyondVerif.Heap.copyRef_ok",
     "BeyondVerif.Heap.copyRef_sep",
     "BeyondVerif.Heap.deepRef_ok",
+    "BeyondVerif.Heap.covSetFrame_sep",
+    "BeyondVerif.Heap.setFrameTo_sep",
     "BeyondVerif.C15W.copy_shares_maneuver_objects",
     "BeyondVerif.C15W.as_orbit_cov_separate",
     "BeyondVerif.C15W.pickle_gives_working_object",
+    "BeyondVerif.C15W.deepcopy_shares_data",
+    "BeyondVerif.C15W.frame_change_fails_after_state_moved",
+    "BeyondVerif.C15W.cov_from_cov_has_own_buffer",
+    "BeyondVerif.C15W.lazily_created_maneuver_list_not_shared",
+    "BeyondVerif.C15W.failed_frame_change_from_keplerian",
 ]
-LEVEL_TEXT = ("Lean theorems over an object-graph (heap) model of StateVector/Orbit/Cov: for every heap and receiver, copy(), copy(form=..), copy(frame=..), as_orbit, "
-              "as_statevector and a pickle round trip write no pre-existing cell (receiver unchanged, also when the conversion fails); in every well-formed heap a cell "
-              "reachable both from a copy and from its original is a maneuver object and nothing else, at any depth (copy_shares_only_maneuver_objects; the invariant "
-              "'every address stored in a cell the copy created is new or a maneuver object' is proved through the whole copy, for every copy depth, by induction); an "
-              "unpickled object shares nothing at all with the original; as_orbit / as_statevector create only new cells (plus the propagator handed in); every failing "
-              "form change and every failing covariance frame change leaves the heap identical, a failing frame transformation rewrites only the coordinate buffer with a "
-              "value denoting the same physical state; StateVector->Orbit->StateVector gives back the coordinates, form, frame and every immutable _data entry; "
-              "name/alias/index resolution decided over the tables regenerated from beyond.orbits.forms on every run. The model agrees exactly (object-identity "
-              "partition incl. cloned Frame objects, labels, error kinds, bit-identical buffers) with the real classes on random operation sequences.")
-LEVEL_NOTE = ("shared maneuver objects are an open finding (kept on purpose by the library) and the one exception in the separation theorems; that the content of copied "
-              "containers equals the original's, and the pickle round trip as an isomorphism, are compared exactly by the correspondence but not proved; a covariance failure "
-              "after a successful state-vector frame change is not proved unreachable; heap model hand-written, tied by the correspondence run; "
-              "Lean kernel + propext/Classical.choice/Quot.sound")
+LEVEL_TEXT = ("Lean theorems over an object-graph (heap) model of StateVector/Orbit/Cov (buffers of state vectors AND of covariances, dicts, containers, maneuver and covariance objects are cells): for every heap and receiver, copy(), "
+              "copy(form=..), copy(frame=..), as_orbit, as_statevector, a pickle round trip and the constructors given an existing object write no pre-existing cell (receiver unchanged, also when the conversion fails); in every "
+              "well-formed heap a cell reachable both from a copy and from its original is a maneuver object and nothing else, at any depth (copy_shares_only_maneuver_objects), also after copy(form/frame) whether it succeeds or fails "
+              "(copyForm_separate, copyFrame_separate); over HISTORIES: after a copy / as_statevector / unpickling, any sequence of in-place operations on the new object — form, frame (incl. transformations the environment makes "
+              "fail), element by name/index, metadata keys, metadata containers empty or not and nested, the maneuver list incl. the one the getter creates on a mere read, covariance frame — each succeeding or raising, leaves every "
+              "pre-existing cell bit-identical (copy_then_mutations_invisible, by induction over the sequence); a covariance built from a list, an ndarray or another covariance gets a new buffer cell and only the owner's own dict is "
+              "rewritten (attachCov_result, covFrom_frame); the maneuver getter creates a new list per object (getMans_creates_new); every failing form change and every failing covariance frame change leaves the heap identical, a "
+              "failing frame transformation (Hill, unreachable centre, missing EOP data) from ANY form rewrites only the coordinate buffer with the round trip form->cartesian->form of its content and keeps form, frame and _data "
+              "(setFrameBasic_error_atomic, setFrameBasic_error_keeps_labels); StateVector->Orbit->StateVector gives back the coordinates, form, frame and every immutable _data entry; name/alias/index resolution decided over the tables "
+              "regenerated from beyond.orbits.forms on every run. The model agrees exactly (object-identity partition incl. memory owners of all buffers and cloned Frame objects, labels, error kinds, bit-identical buffers) with the "
+              "real classes on random operation sequences.")
+LEVEL_NOTE = ("shared maneuver objects (kept on purpose by the library), copy.deepcopy falling through to ndarray's protocol and the frame setter leaving the state moved when its covariance cannot follow are open findings; the maneuver objects are the one exception in the separation theorems; that the "
+              "content of copied containers equals the original's, and the pickle round trip as an isomorphism, are compared exactly by the correspondence but not proved; the history theorem covers in-place operations on the NEW "
+              "object (the other direction, and setCov / Cov-from-Cov inside a history, are compared by the correspondence and judged by the history oracle only); a covariance failure after a successful state-vector frame change "
+              "is reachable and is an open finding (frame setter not atomic when the covariance that follows cannot be converted; the atomicity theorem for the whole setter is _partial); heap model hand-written, tied by the correspondence run; Lean kernel + propext/Classical.choice/Quot.sound")
 TECHNIQUE = "Lean 4 proof over an object-graph (heap) model + kernel decide on regenerated name/alias tables; exact model/implementation correspondence"
 TRUSTED = [
     "harness/props/C15.py extract: Form.param_names, Form.alt, forms._cache, _cache_param_names, the frame registry and the property names of the classes, read from live objects (cross-checked against the Form(...) literals in forms.py) -> Generated/FormTables.lean",
     "correspondence: real StateVector/Orbit/Cov objects vs the compiled Lean model on identical operation sequences; after every operation the whole object graph reachable from all variables is compared: "
-    "partition of mutable objects by id(), identity of cloned Frame objects, kinds, keys, labels, error kind, and every coordinate buffer bit for bit against the pure evaluation (Form.__call__, Frame.transform on fresh objects) of the model's symbolic value",
-    "CPython object identity (id / is), pickle / copy.deepcopy memo semantics, numpy buffer semantics",
+    "partition of mutable objects by id() and of every ndarray buffer (state vectors, covariances, metadata arrays) by the object that owns its memory, identity of cloned Frame objects, kinds, keys, labels, error kind, and every "
+    "coordinate buffer bit for bit against the pure evaluation (Form.__call__, Frame.transform on fresh objects) of the model's symbolic value; a library call that raises or does not return (1 s SIGALRM watchdog) is the outcome of that operation",
+    "CPython object identity (id / is), ndarray.base chains, pickle / copy.deepcopy memo semantics, numpy buffer semantics",
+    "the environment failures of Frame.transform are produced by the harness: a Frame registered for the duration of one assignment whose centre has no link (ValueError from Node.path), and beyond.config eop.missing_policy='error' with target EME2000 (EopError)",
 ]
 ASSUMPTIONS = [
     "the heap model Model/Heap.lean is hand-written; it is tied to statevector.py / orbit.py / cov.py by the exact correspondence run only",
     "the separation theorems assume a well-formed heap (WfM: no dangling address; every `maneuvers` entry is a list of maneuver objects); shown satisfiable (example_heap_wf), true of every state the harness builds, not proved preserved by the operations",
     "coordinate values are symbolic in the model (initial vector + sequence of conversions/assignments); that a form conversion does not move the physical state (phys erases it) is property C01, not proved here",
-    "a Cov's own ndarray buffer and _data dict are kept inside its cell (Cov.__new__ creates both afresh); the correspondence asserts on every dump that no two objects share them",
-    "dict key order is not modelled (both dumps sort keys); 'cov: None' and an empty maneuver list created by the getters on first read are treated as absent",
+    "a Cov's `_data` / `__dict__` are kept inside its cell (Cov.__new__ creates them afresh); the correspondence asserts on every dump that no two objects share them. Its 6x6 buffer IS a cell",
+    "dict key order is not modelled (both dumps sort keys); `cov: None` (an immutable value left by the getter on first read) is treated as absent",
     "Date and Form objects are treated as immutable values identified by name; Frame objects by name and identity (pickle / deepcopy clone them, the setters compare them with `is`-semantics)",
     "copy.deepcopy of a metadata container holding a StateVector / Cov is modelled like a pickle of it (not generated by the harness)",
+    "which rotations raise under the EOP 'error' policy depends on what the Date object has cached; the model takes 'the transformation raises e' as an input (setFrameBasic env) and the harness only asks for it where it does (target EME2000)",
 ]
 NOT_COVERED = [
     "maneuver objects stay shared between a copy and its original (open findings C15-*-man-object, kept on purpose by the library): the clause 'changing maneuvers of one never shows in the other' holds for the maneuver list, not for the objects in it",
+    "copy.deepcopy(sv) / copy.copy(sv) / np.copy: ndarray's own protocol, shallow in _data (open finding C15-deepcopy-shares-data for deepcopy; modelled as stdDeepcopy and compared by the correspondence)",
     "numpy views (sv[:], sv.view()) share the buffer with their parent by numpy's own semantics and are outside the model; setting the form of such a view rewrites the parent's values but not its form label (observed, not filed: a view is not a copy)",
     "after a pickle round trip the Frame objects are clones, so `p.frame = <same name>` runs a (numerically identity) transformation through cartesian instead of doing nothing: modelled and compared, not judged",
-    "Cov frame conversions to/from the Hill frame beyond the error kind; numerical content of covariance rotations (C14)",
+    "the stale `infos` entry of _data (Infos object of the receiver, handed over by copy() as it is and re-created by the getter on every access): cache object of C01 / C08, excluded from the object graphs",
+    "a form change that fails for another reason than an unknown name (an exception inside Form.__call__): no input of the generators reaches one",
+    "Cov frame conversions to/from the Hill frame beyond the error kind; numerical content of covariance rotations (C14); the stale _orb_frame of a Cov re-attached to a state in another frame (C14)",
     "Orbit.propagate / Infos caches (C08, C01)",
 ]
 OPEN = [
-    "content equality of copies: that a copied / unpickled container holds the same values as the original (an isomorphism of object graphs) is compared exactly by the correspondence, proved only for immutable entries (as_orbit_as_statevector_id) and values (copy_separate_depth1)",
-    "setFrame_error_cases third case (covariance part fails after the state vector was changed; the covariance is then untouched, covSetFrame_error_atomic): not proved unreachable from constructor-built states; no occurrence in correspondence or oracle runs",
-    "WfM is not proved to be preserved by the operations (it is a hypothesis of copy_separate / asOrbit_separate / asSV_separate)",
-    "copy(form=..) / copy(frame=..): receiver-unchanged is proved; that the setters keep the full-depth separation invariant on the new object is not (they write only the new buffer, dict and covariance cell)",
+    "content equality of copies: that a copied / unpickled container holds the same values as the original (an isomorphism of object graphs) is compared exactly by the correspondence, proved only for immutable entries (as_orbit_as_statevector_id) and values (copy_separate_depth1, attachCov_result)",
+    "setFrame_error_cases third case (covariance part fails after the state vector was changed; the covariance is then untouched, covSetFrame_error_atomic) IS reachable: open finding C15-frame-change-not-atomic-with-cov "
+    "(counter-witness frame_change_fails_after_state_moved; the atomicity theorem is setFrame_error_atomic_partial: states whose covariance does not have to follow)",
+    "WfM is not proved to be preserved by the operations (it is a hypothesis of copy_separate / asOrbit_separate / asSV_separate); hence histories that copy a copy, or attach a covariance to the copy (setCov / covFrom run copy() inside), are outside copy_then_mutations_invisible",
+    "the mirror direction of copy_then_mutations_invisible (in-place operations on the ORIGINAL never reach a cell of the copy) needs the separation invariant phrased for an arbitrary region instead of 'addresses below the old length'; single-step facts: copy_shares_only_maneuver_objects + the *_frame theorems",
+    "copyFrame_receiver_unchanged now carries the hypothesis WfM h (the covariance that follows the frame change writes its buffer cell, which is new because the copy is separated)",
 ]
-RULE = ("correspondence: (a) exhaustive name resolution: every form x every reserved name, alias and two free keys; (b) random sequences of 1-2 constructions (form, frame incl. Hill, "
-        "Orbit or StateVector, with/without metadata containers, maneuvers, covariance in own/local/other frame) followed by 1-6 operations drawn from copy, copy(form), copy(frame), as_orbit, as_statevector, "
-        "form=, frame= (incl. unknown names, Hill, aliases), setattr/setitem by name/alias/foreign name/free key, index assignment, cov.frame=, maneuvers.append, cov=, pickle round trip; "
-        "a case is non-trivial when it has >= 2 operations; distinct = distinct request line; cases whose buffers hold non-finite numbers are skipped and counted. oracle: for every converting method x every in-place mutation x both directions, deep snapshot of the other object; "
-        "failing setters; name/alias/index on every form; pickle and StateVector<->Orbit round trips")
+RULE = ("correspondence: (a) exhaustive name resolution: every form x every reserved name, alias and two free keys; (b) random sequences of 1-2 constructions (form, frame incl. Hill, Orbit or StateVector, metadata absent / non-empty and nested / "
+        "EMPTY containers / empty containers inside non-empty ones, maneuvers, covariance in own/local/other frame) followed by 1-6 operations drawn (weights OP_WEIGHTS) from copy, copy(form), copy(frame), as_orbit, as_statevector, the constructors given "
+        "an existing object, form=, frame= (incl. unknown names, Hill, aliases), frame= made to fail by an unreachable centre or by the EOP 'error' policy, setattr/setitem by name/alias/foreign name/free key, index assignment, cov.frame=, a mere read of "
+        "maneuvers, maneuvers.append, append / setitem on metadata containers (also nested, also on keys that are missing or of the wrong type), cov= from values and from the covariance of another object, pickle round trip, copy.deepcopy; targets are "
+        "drawn among ALL objects alive (copies of copies); a case is non-trivial when it has >= 2 operations; distinct = distinct request line; cases whose buffers hold non-finite numbers are skipped and counted. oracle: for every converting method "
+        "(incl. pickle, copy(same=)) x every in-place mutation (every container reachable from _data, in-place arithmetic, the maneuver list through its getter) x both directions, deep snapshot of the other object, plus the identity partition of the two "
+        "object graphs; every constructor form of Cov / StateVector / Orbit; every failing setter (unknown name, Hill both ways, unreachable centre, EOP error; on the state and on its covariance) from every form; the same operation sequences as the "
+        "correspondence judged step by step by the statement (history oracle); name/alias/index on every form; pickle and StateVector<->Orbit round trips")
 
 FRAMES = ["EME2000", "MOD", "TOD", "TEME", "PEF", "ITRF"]
 FORMS = ["cartesian", "keplerian", "spherical", "keplerian_mean", "keplerian_eccentric", "keplerian_circular",
          "keplerian_mean_circular", "equinoctial", "cylindrical", "tle"]
+
+
+# ---------------------------------------------------------------- watchdog
+
+class Hang(Exception):
+    """a call into the library did not return within the time limit (e.g. the unbounded Newton loop of Form.M2E run on
+    values that are not what the form label says): recorded as the outcome of that one case, never an abort of the run"""
+
+
+class guard:
+    """SIGALRM watchdog around calls into the library (main thread)"""
+
+    def __init__(self, seconds=1.0):
+        self.seconds = seconds
+
+    def __enter__(self):
+        import signal
+
+        def handler(signum, frame):
+            raise Hang(f"no return within {self.seconds} s")
+        self.old = signal.signal(signal.SIGALRM, handler)
+        signal.setitimer(signal.ITIMER_REAL, self.seconds)
+        return self
+
+    def __exit__(self, *a):
+        import signal
+        signal.setitimer(signal.ITIMER_REAL, 0)
+        signal.signal(signal.SIGALRM, self.old)
+        return False
+
+
+def attempt(f, seconds=1.0):
+    """('ok', value) | ('raised', exception) | ('hang', exception): whatever the library does inside one case is that case's outcome"""
+    try:
+        with guard(seconds):
+            return "ok", f()
+    except Hang as e:
+        return "hang", e
+    except Exception as e:
+        return "raised", e
 
 
 # ---------------------------------------------------------------- real objects
@@ -104,8 +179,28 @@ def rand_coord(rng):
     return [a, e, i, rng.uniform(0.1, 6.1), rng.uniform(0.1, 6.1), rng.uniform(0.1, 6.1)]
 
 
+META_VARIANTS = [0, 1, 2, 3, 4]
+
+
+def make_meta(variant):
+    """free metadata given to the constructor: 0 none; 1 non-empty and nested containers; 2 empty containers; 3 empty containers inside
+    non-empty ones; 4 (oracle only) sets, tuples holding a list, empty tuple"""
+    import numpy as np
+    variant = 1 if variant is True else (0 if not variant else int(variant))
+    if variant == 1:
+        return {"name": "sat", "tags": ["a", "b"], "nested": {"k": [1, 2], "s": "x"}, "arr": np.arange(3.0)}
+    if variant == 2:
+        return {"name": "sat", "tags": [], "nested": {}}
+    if variant == 3:
+        return {"tags": [], "nested": {"k": [], "s": "x"}, "arr": np.arange(3.0)}
+    if variant == 4:
+        return {"tags": [], "nested": {}, "es": set(), "tup": ([], "a"), "et": (), "full": {1, 2}}
+    return {}
+
+
 def make_state(rng, spec):
-    """spec: dict(kep, form, frame, orbit, cov, covframe, mans, meta) -> real StateVector / Orbit"""
+    """spec: dict(kep, form, frame, orbit, cov, covframe, mans, meta, lazy) -> real StateVector / Orbit.
+    lazy: the maneuver list and the covariance have been *looked at* (the getters create `maneuvers: []` / `cov: None` on first read)"""
     import numpy as np
     from beyond.dates import Date, timedelta
     from beyond.orbits import StateVector
@@ -113,9 +208,7 @@ def make_state(rng, spec):
     from beyond.orbits.man import ImpulsiveMan
     from beyond.propagators.kepler import Kepler
     date = Date(2020, 3, 1, 12, 0, 0) + timedelta(seconds=spec.get("dt", 0))
-    meta = {}
-    if spec.get("meta"):
-        meta = {"name": "sat", "tags": ["a", "b"], "nested": {"k": [1, 2], "s": "x"}, "arr": np.arange(3.0)}
+    meta = make_meta(spec.get("meta"))
     sv = StateVector(spec["kep"], date, "keplerian", "Hill" if spec["frame"] == "Hill" else "EME2000", **meta)
     if spec["form"] != "keplerian":
         sv.form = spec["form"]
@@ -133,6 +226,9 @@ def make_state(rng, spec):
         sv.cov = Cov(sv, vals, sv.frame)
         if spec.get("covframe"):
             sv.cov.frame = spec["covframe"]
+    if spec.get("lazy"):
+        bool(sv.maneuvers)        # what repr(), `if orb.maneuvers:` and the numerical propagators do
+        sv.cov is None
     return sv
 
 
@@ -158,7 +254,7 @@ def rand_spec(rng, **force):
 def _rand_spec(rng, **force):
     spec = {"kep": rand_coord(rng), "form": rng.choice(FORMS), "frame": rng.choice(FRAMES), "orbit": rng.random() < 0.4,
             "cov": rng.random() < 0.5, "covframe": rng.choice([None, None, "TNW", "QSW"]), "mans": rng.choice([0, 0, 1, 2]),
-            "meta": rng.random() < 0.6, "dt": rng.randrange(0, 86400)}
+            "meta": rng.choice([0, 1, 1, 2, 3, 4]), "lazy": rng.random() < 0.4, "dt": rng.randrange(0, 86400)}
     spec.update(force)
     return spec
 
@@ -173,8 +269,9 @@ def snap(x):
     from beyond.propagators.base import Propagator
     if isinstance(x, StateVector):
         d = x._data
-        rest = {k: snap(v) for k, v in d.items() if k not in ("form", "frame", "infos")
-                and not (k == "cov" and v is None) and not (k == "maneuvers" and isinstance(v, list) and not v)}
+        # `cov: None` is what the getter leaves on first read (None is immutable: nothing to share); an EMPTY maneuver list
+        # created the same way is a mutable object and is part of the snapshot
+        rest = {k: snap(v) for k, v in d.items() if k not in ("form", "frame", "infos") and not (k == "cov" and v is None)}
         return (type(x).__name__, d["form"].name, d["frame"].name, tuple(float(v).hex() for v in np.asarray(x)), tuple(sorted(rest.items())))
     if isinstance(x, Cov):
         dd = x.__dict__.get("_data")
@@ -196,8 +293,8 @@ def snap(x):
         return ("dict", tuple(sorted((str(k), snap(v)) for k, v in x.items())))
     if isinstance(x, (list, tuple)):
         return (type(x).__name__, tuple(snap(v) for v in x))
-    if isinstance(x, set):
-        return ("set", tuple(sorted(map(repr, x))))
+    if isinstance(x, (set, frozenset)):
+        return (type(x).__name__, tuple(sorted(map(repr, x))))
     return repr(x)
 
 
@@ -222,6 +319,149 @@ def same_physical(c0, c1, rtol=1e-9):
     return bool(np.all(np.abs(c0[:3] - c1[:3]) <= rtol * r) and np.all(np.abs(c0[3:] - c1[3:]) <= rtol * v))
 
 
+def snap_full(x):
+    """snap + the attributes a propagator may have been given"""
+    s = snap(x)
+    p = x._data.get("propagator")
+    return (s, tuple(sorted(k for k in getattr(p, "__dict__", {}) if k == "marker")))
+
+
+def snap_diff(s0, s1):
+    """which part of a snap_full differs: 'type' | 'form' | 'frame' | 'values' | <_data key> | 'propagator-attr' | None"""
+    if s0 == s1:
+        return None
+    a, b = s0[0], s1[0]
+    for i, nm in ((0, "type"), (1, "form"), (2, "frame"), (3, "values")):
+        if a[i] != b[i]:
+            return nm
+    da, db = dict(a[4]), dict(b[4])
+    for k in sorted(set(da) | set(db)):
+        if da.get(k) != db.get(k):
+            return k
+    return "propagator-attr"
+
+
+FIELD_OF_KEY = {"maneuvers": "man-list", "cov": "cov", "propagator": "propagator", "date": "date"}
+
+
+def field_of(key, depth=0):
+    """the vocabulary of the failure families: which clause of the statement a `_data` entry belongs to"""
+    return FIELD_OF_KEY.get(key, "meta-container" if depth == 0 else "nested-meta")
+
+
+# ---------------------------------------------------------------- object graph: identity partition of the mutable cells
+
+def cells(root):
+    """every mutable object reachable from `root` through what the library stores: {key: (field, path, obj)};
+    key = ('obj', id) for Python objects, ('mem', id of the owner of the memory) for ndarray buffers (a view, or an array built on the
+    buffer of another one, has another id but the same memory)"""
+    import numpy as np
+    from beyond.orbits import StateVector
+    from beyond.orbits.cov import Cov
+    from beyond.orbits.man import Man
+    from beyond.orbits.forms import Form
+    from beyond.frames.frames import Frame
+    from beyond.dates import Date
+    found = {}
+
+    def mem(arr, field, path):
+        owner = arr
+        while isinstance(owner.base, np.ndarray):
+            owner = owner.base
+        found.setdefault(("mem", id(owner) if owner.base is None else id(owner.base)), (field, path, arr))
+
+    def walk(x, field, path, depth):
+        if x is None or isinstance(x, (str, bytes, int, float, complex, bool, Date, Form, Frame, frozenset, type)):
+            return
+        if isinstance(x, tuple):            # immutable itself; what it holds may not be
+            for i, y in enumerate(x):
+                walk(y, field, f"{path}[{i}]", depth)
+            return
+        key = ("obj", id(x))
+        if key in found:
+            return
+        found[key] = (field, path, x)
+        if isinstance(x, StateVector):
+            top = depth == 0 and field == "object"
+            mem(x, "coord" if top else field, path + "[buffer]")
+            found.setdefault(("obj", id(x._data)), ("data-dict" if top else field, path + "._data", x._data))
+            for k, v in x._data.items():
+                if k == "infos":        # cache object (C01 / C08), re-created by the getter on every access
+                    continue
+                walk(v, field_of(k) if top else field, f"{path}.{k}", depth + 1 if not top else 0)
+        elif isinstance(x, Cov):
+            mem(x, "cov", path + "[buffer]")
+            found.setdefault(("obj", id(x.__dict__)), ("cov", path + ".__dict__", x.__dict__))
+            for k, v in x.__dict__.items():
+                walk(v, "cov", f"{path}.{k}", depth + 1)
+        elif isinstance(x, np.ndarray):
+            mem(x, field, path + "[buffer]")
+        elif isinstance(x, (list, set)):
+            sub = "man-object" if field == "man-list" else ("nested-meta" if field == "meta-container" else field)
+            for i, y in enumerate(x if isinstance(x, list) else ()):
+                walk(y, sub, f"{path}[{i}]", depth + 1)
+        elif isinstance(x, dict):
+            sub = "nested-meta" if field == "meta-container" else field
+            for k, y in x.items():
+                walk(y, sub, f"{path}[{k!r}]", depth + 1)
+        elif hasattr(x, "__dict__"):      # maneuver objects, propagators, anything else a user hangs on the state
+            sub = "man-object" if isinstance(x, Man) else field
+            found[key] = (sub, path, x)
+            for k, y in vars(x).items():
+                walk(y, sub, f"{path}.{k}", depth + 1)
+
+    walk(root, "object", type(root).__name__, 0)
+    return found
+
+
+def shared_cells(a, b):
+    """the mutable cells reachable from both objects: [(field, path in a, path in b, object)] (plus overlapping array memory of different owners)"""
+    import numpy as np
+    ca, cb = cells(a), cells(b)
+    res = [(ca[k][0], ca[k][1], cb[k][1], ca[k][2]) for k in ca if k in cb]
+    arrs_a = [(k, v) for k, v in ca.items() if k[0] == "mem"]
+    arrs_b = [(k, v) for k, v in cb.items() if k[0] == "mem"]
+    for ka, va in arrs_a:
+        for kb, vb in arrs_b:
+            if ka != kb and np.may_share_memory(np.asarray(va[2]), np.asarray(vb[2])):
+                res.append((va[0], va[1], vb[1], va[2]))
+    return res
+
+
+def poke(obj):
+    """change a container in place (what a user holding one of the two objects can do); True when something was changed"""
+    import numpy as np
+    if isinstance(obj, list):
+        obj.append("__poke__")
+    elif isinstance(obj, dict):
+        obj["__poke__"] = 1
+    elif isinstance(obj, set):
+        obj.add("__poke__")
+    elif isinstance(obj, np.ndarray) and obj.size:
+        flat = np.asarray(obj).reshape(-1)
+        flat[0] = flat[0] + 1.0 if np.isfinite(flat[0]) else 1.0
+    else:
+        return False
+    return True
+
+
+def report_shared(out, sh, kind, name, inp, a, b, skip=()):
+    """one failure per field for cells found in both graphs; the in-place change through `a` is shown in `b` where the cell is a container"""
+    done = set()
+    for field, pa, pb, obj in sh:
+        if field in done or field in skip:
+            continue
+        done.add(field)
+        ref = snap_full(b)
+        shows = None
+        if poke(obj):
+            shows = snap_full(b) != ref
+        out.fail(f"shared-{field}-after-{kind}",
+                 f"after {name}, {pa} of one object and {pb} of the other are the same mutable object"
+                 + ("" if shows is None else (": a change made in place through one shows in the other" if shows else " (an in-place change is not visible through the snapshot)")),
+                 inp, observed=f"{type(obj).__name__} at {pa} is {pb}", expected="no mutable object reachable from both")
+
+
 # ---------------------------------------------------------------- oracle: separation
 
 def conv_ops(rng, sv):
@@ -235,10 +475,45 @@ def conv_ops(rng, sv):
            (f"copy(form={f})", "copy", lambda: sv.copy(form=f)),
            (f"copy(frame={fr})", "copy", lambda: sv.copy(frame=fr)),
            (f"copy(form={f},frame={fr})", "copy", lambda: sv.copy(form=f, frame=fr)),
-           ("as_orbit", "as_orbit", lambda: sv.as_orbit(Kepler()))]
+           ("copy(same=self)", "copy", lambda: sv.copy(same=sv)),
+           ("as_orbit", "as_orbit", lambda: sv.as_orbit(Kepler())),
+           ("pickle", "pickle", lambda: pickle.loads(pickle.dumps(sv)))]
     if isinstance(sv, Orbit):
         ops.append(("as_statevector", "as_statevector", lambda: sv.as_statevector()))
     return ops
+
+
+def container_muts(d):
+    """an in-place change of every container reachable from the free metadata entries of `_data` (empty ones included)"""
+    import numpy as np
+    from beyond.orbits import StateVector
+    from beyond.orbits.cov import Cov
+    acc = []
+
+    def rec(v, depth):
+        field = "meta-container" if depth == 0 else "nested-meta"
+        if isinstance(v, (StateVector, Cov)):
+            return
+        if isinstance(v, list):
+            acc.append((field, lambda v=v: v.append("z")))
+            for y in list(v):
+                rec(y, depth + 1)
+        elif isinstance(v, dict):
+            acc.append((field, lambda v=v: v.__setitem__("new", 1)))
+            for y in list(v.values()):
+                rec(y, depth + 1)
+        elif isinstance(v, set):
+            acc.append((field, lambda v=v: v.add("z")))
+        elif isinstance(v, np.ndarray):
+            if v.size:
+                acc.append((field, lambda v=v: v.reshape(-1).__setitem__(0, 99.0)))
+        elif isinstance(v, tuple):
+            for y in v:
+                rec(y, depth + 1)
+    for k in sorted(d):
+        if k not in ("date", "form", "frame", "cov", "maneuvers", "propagator", "infos"):
+            rec(d[k], 0)
+    return acc
 
 
 def mutations(rng, obj):
@@ -254,139 +529,417 @@ def mutations(rng, obj):
     if not (d["form"].name == "cylindrical" and nm.startswith("theta")):
         muts.append(("coord-name", lambda: setattr(obj, nm, 0.4321)))
     muts.append(("coord-slice", lambda: obj.__setitem__(slice(None), np.arange(6.0) + 1)))
+    muts.append(("coord-inplace", lambda: obj.__imul__(2.0)))           # in-place arithmetic
     muts.append(("form", lambda: setattr(obj, "form", "cartesian" if d["form"].name != "cartesian" else "keplerian")))
     muts.append(("frame", lambda: setattr(obj, "frame", "ITRF" if d["frame"].name != "ITRF" else "EME2000")))
     muts.append(("date", lambda: setattr(obj, "date", d["date"] + timedelta(seconds=7))))
     muts.append(("meta-rebind", lambda: setattr(obj, "name", "other")))
     muts.append(("meta-new-key", lambda: setattr(obj, "extra", [1])))
-    if isinstance(d.get("tags"), list):
-        muts.append(("meta-container", lambda: d["tags"].append("z")))
-        muts.append(("meta-container", lambda: d["arr"].__setitem__(0, 99.0)))
-        muts.append(("meta-container", lambda: d["nested"].__setitem__("new", 1)))
-        muts.append(("nested-meta", lambda: d["nested"]["k"].append(3)))
+    muts.extend(container_muts(d))
+    # the maneuver list through the public getter (which creates it when the state never had one)
+    muts.append(("man-list", lambda: obj.maneuvers.append(ImpulsiveMan(d["date"], [1, 1, 1]))))
+    muts.append(("man-rebind", lambda: setattr(obj, "maneuvers", [])))
     if isinstance(d.get("maneuvers"), list) and d["maneuvers"]:
-        muts.append(("man-list", lambda: obj.maneuvers.append(ImpulsiveMan(d["date"], [1, 1, 1]))))
         muts.append(("man-list", lambda: obj.maneuvers.pop()))
         muts.append(("man-object", lambda: d["maneuvers"][0]._dv.__setitem__(0, 55.0)))
         muts.append(("man-object", lambda: setattr(d["maneuvers"][0], "date", d["date"] + timedelta(seconds=1))))
-        muts.append(("man-rebind", lambda: setattr(obj, "maneuvers", [])))
     if isinstance(d.get("cov"), Cov):
         muts.append(("cov", lambda: d["cov"].__setitem__((0, 0), 7.0e4)))
+        muts.append(("cov", lambda: d["cov"].__imul__(2.0)))
         muts.append(("cov", lambda: setattr(d["cov"], "frame", "QSW" if d["cov"]._data["frame"] != "QSW" else "TNW")))
         muts.append(("cov", lambda: setattr(d["cov"], "frame", "ITRF" if d["frame"].name != "ITRF" else "EME2000")))
         muts.append(("cov-rebind", lambda: obj.__class__.cov.fdel(obj)))
+    muts.append(("cov-rebind", lambda: setattr(obj, "cov", Cov(obj, np.identity(6), d["frame"]))))
     if "propagator" in d and d["propagator"] is not None:
         muts.append(("propagator", lambda: setattr(d["propagator"], "marker", 1)))
     return muts
 
 
-def snap_full(x):
-    """snap + the attributes a propagator may have been given"""
-    s = snap(x)
-    p = x._data.get("propagator")
-    return (s, tuple(sorted(k for k in getattr(p, "__dict__", {}) if k == "marker")))
-
-
 def check_separation(out, rng, spec):
-    """O1/O2: a converting method leaves the receiver unchanged; afterwards no mutation of one object shows in the other"""
+    """O1/O2: a converting method leaves the receiver unchanged; the new object and the receiver have no mutable cell in common
+    (identity partition of the two object graphs); afterwards no in-place change of one object shows in the other"""
     probe = make_state(rng, spec)
     n_ops = len(conv_ops(rng, probe))
     for oi in range(n_ops):
+        st0 = rng.getstate()
         base = make_state(rng, spec)
         n_muts = len(mutations(rng, base))
+        name, kind, op = conv_ops(rng, base)[oi]
+        before = snap_full(base)
+        how, new = attempt(op)
+        rng.setstate(st0)
+        inp0 = {"spec": spec, "op": name, "op_index": oi}
+        if how != "ok":   # a converting method must work on a valid object
+            out.fail(f"convert-raises-{kind}", f"{name} {'does not return' if how == 'hang' else 'raised'} {type(new).__name__}: {new}", inp0, observed=repr(new))
+            continue
+        out.count(key=("identity", oi, spec["form"], spec["frame"], spec["orbit"], spec["cov"], spec["mans"], spec.get("meta"), spec.get("lazy")), kind="separation-identity", op=kind)
+        if snap_full(base) != before:
+            out.fail(f"receiver-changed-{kind}", f"{name} changed its receiver ({snap_diff(before, snap_full(base))})", inp0,
+                     observed=str(snap_full(base))[:300], expected=str(before)[:300])
+            continue
+        report_shared(out, shared_cells(base, new), kind, name, inp0, base, new)
+        n_muts = max(n_muts, len(mutations(rng, new)))
+        rng.setstate(st0)
         for mi in range(n_muts):
             for direction in ("copy", "orig"):
                 st = rng.getstate()
                 sv = make_state(rng, spec)
-                before = snap_full(sv)
                 name, kind, op = conv_ops(rng, sv)[oi]
-                try:
-                    new = op()
-                except Exception as e:  # a converting method must work on a valid object
-                    out.fail(f"convert-raises-{kind}", f"{name} raised {type(e).__name__}: {e}", {"spec": spec, "op": name}, observed=repr(e))
-                    break
-                if snap_full(sv) != before:
-                    out.fail(f"receiver-changed-{kind}", f"{name} changed its receiver", {"spec": spec, "op": name},
-                             observed=str(snap_full(sv))[:300], expected=str(before)[:300])
+                how, new = attempt(op)
+                if how != "ok":
                     break
                 target, other = (new, sv) if direction == "copy" else (sv, new)
                 ms = mutations(rng, target)
-                if mi >= len(ms):
-                    break
-                field, mut = ms[mi]
-                ref = snap_full(other)
-                try:
-                    mut()
-                except Exception as e:
-                    out.tally(f"mutation-raised={field}:{type(e).__name__}")
-                out.count(key=(oi, mi, direction, spec["form"], spec["frame"], spec["orbit"], spec["cov"], spec["mans"], spec["meta"]),
-                          kind="separation", op=kind, field=field)
-                now = snap_full(other)
-                if now != ref:
-                    if field in ("frame", "form") and now[0][:4] == ref[0][:4] and [k for k, _ in set(now[0][4]) ^ set(ref[0][4])] == ["cov", "cov"]:
-                        field = "cov"   # the shared covariance followed the frame change of the other object
-                    out.fail(f"shared-{field}-after-{kind}",
-                             f"after {name}, changing {field} of the {'new object' if direction == 'copy' else 'receiver'} shows in the other object",
-                             {"spec": spec, "op": name, "op_index": oi, "mutation_index": mi, "direction": direction, "rng": None},
-                             observed=str(now)[:400], expected=str(ref)[:400])
+                if mi < len(ms):
+                    field, mut = ms[mi]
+                    ref = snap_full(other)
+                    how, err = attempt(mut)
+                    if how != "ok":
+                        out.tally(f"mutation-raised={field}:{type(err).__name__}")
+                    out.count(key=(oi, mi, direction, spec["form"], spec["frame"], spec["orbit"], spec["cov"], spec["mans"], spec.get("meta"), spec.get("lazy")),
+                              kind="separation", op=kind, field=field)
+                    now = snap_full(other)
+                    if now != ref:
+                        if field in ("frame", "form") and now[0][:4] == ref[0][:4] and [k for k, _ in set(now[0][4]) ^ set(ref[0][4])] == ["cov", "cov"]:
+                            field = "cov"   # the shared covariance followed the frame change of the other object
+                        out.fail(f"shared-{field}-after-{kind}",
+                                 f"after {name}, changing {field} of the {'new object' if direction == 'copy' else 'receiver'} shows in the other object ({snap_diff(ref, now)})",
+                                 {"spec": spec, "op": name, "op_index": oi, "mutation_index": mi, "direction": direction, "rng": None},
+                                 observed=str(now)[:400], expected=str(ref)[:400])
                 rng.setstate(st)
                 rng.random()
 
 
+# ---------------------------------------------------------------- oracle: constructors
+
+def check_cov_constructors(out, rng, spec):
+    """every constructor form of Cov (values as nested list, ndarray, Cov of the same / of another state; frame as name, Frame object,
+    local orientation, None) and Cov.copy(): the new covariance has the values it was given and shares no memory / object with its source;
+    in-place changes of one (element, in-place arithmetic, frame conversion, frame change of the owning state) never show in the other"""
+    import numpy as np
+    from beyond.orbits.cov import Cov
+    spec_a = dict(spec, cov=True)
+    spec_b = dict(spec, cov=False, kep=[spec["kep"][0] * 1.01] + list(spec["kep"][1:]))
+
+    def build(kind):
+        """-> (source description for messages, source object to watch, its owner state or None, new Cov, its owner)"""
+        a = make_state(rng, spec_a)
+        b = make_state(rng, spec_b)
+        arr = np.array(a.cov)
+        if kind == "list":
+            src = arr.tolist()
+            return src, None, Cov(b, src, b.frame), b
+        if kind == "ndarray":
+            return arr, None, Cov(b, arr, b.frame.name), b
+        if kind == "ndarray-local":
+            return arr, None, Cov(b, arr, "TNW"), b
+        if kind == "cov-same-state":
+            return a.cov, a, Cov(a, a.cov, None), a
+        if kind == "cov-other-state":
+            return a.cov, a, Cov(b, a.cov, None), b
+        if kind == "cov-frame-given":
+            return a.cov, a, Cov(b, a.cov, "ITRF"), b     # the frame of the source wins
+        if kind == "cov-copy":
+            return a.cov, a, a.cov.copy(), a
+        if kind == "cov-copy-frame":
+            return a.cov, a, a.cov.copy(frame="QSW" if a.cov.frame != "QSW" else "TNW"), a
+        raise ValueError(kind)
+
+    def watch(x, owner):
+        if owner is not None:
+            return snap_full(owner)
+        return np.asarray(x).tobytes() if isinstance(x, np.ndarray) else repr(x)
+
+    def new_muts(c, owner):
+        other = "ITRF" if owner._data["frame"].name != "ITRF" else "EME2000"
+        return [("element", lambda: c.__setitem__((0, 0), 7.0e4)),
+                ("inplace-arithmetic", lambda: c.__imul__(3.0)),
+                ("frame-local", lambda: setattr(c, "frame", "TNW" if c.frame != "TNW" else "QSW")),
+                ("frame", lambda: setattr(c, "frame", other)),
+                ("owner-frame", lambda: (setattr(owner, "cov", c), setattr(c, "frame", owner.frame), setattr(owner, "frame", other)))]
+
+    def src_muts(src, owner):
+        if owner is None:
+            if isinstance(src, np.ndarray):
+                return [("element", lambda: src.__setitem__((0, 0), 7.0e4)), ("inplace-arithmetic", lambda: src.__imul__(3.0))]
+            return [("element", lambda: src[0].__setitem__(0, 7.0e4))]
+        other = "ITRF" if owner._data["frame"].name != "ITRF" else "EME2000"
+        return [("element", lambda: src.__setitem__((0, 0), 7.0e4)),
+                ("frame-local", lambda: setattr(src, "frame", "TNW" if src.frame != "TNW" else "QSW")),
+                ("owner-frame", lambda: (setattr(src, "frame", owner.frame), setattr(owner, "frame", other)))]
+
+    for kind in ("list", "ndarray", "ndarray-local", "cov-same-state", "cov-other-state", "cov-frame-given", "cov-copy", "cov-copy-frame"):
+        fam = f"shared-cov-after-{'cov-copy' if kind.startswith('cov-copy') else 'cov-ctor-' + kind}"
+        inp = {"spec": spec, "ctor": kind}
+        a0 = make_state(rng, spec_a)
+        ref0 = snap_full(a0)
+        how, res = attempt(lambda: build(kind))
+        out.count(key=("cov-ctor", kind, spec["form"], spec["frame"], spec.get("covframe")), kind="cov-constructor", ctor=kind)
+        if how != "ok":
+            out.fail(f"convert-raises-cov-{kind}", f"Cov construction ({kind}) raised {type(res).__name__}: {res}", inp, observed=repr(res))
+            continue
+        src, owner, c, cowner = res
+        if owner is not None and snap_full(owner) != ref0:
+            out.fail(f"receiver-changed-cov-{kind}", f"building a covariance from an existing one ({kind}) changed the source state ({snap_diff(ref0, snap_full(owner))})", inp)
+            continue
+        if kind not in ("cov-copy-frame",):
+            want = np.asarray(src, dtype=float)
+            if np.asarray(c).tobytes() != want.tobytes() or (owner is not None and c.frame != src.frame):
+                out.fail(f"cov-ctor-values-{kind}", f"the covariance built ({kind}) does not hold the values / frame it was given", inp,
+                         observed=[float(v) for v in np.diag(np.asarray(c))], expected=[float(v) for v in np.diag(want)])
+                continue
+        # identity / memory
+        if isinstance(src, np.ndarray) and np.may_share_memory(np.asarray(c), np.asarray(src)):
+            ref = np.asarray(src).tobytes()
+            np.asarray(c)[0, 0] += 1.0
+            out.fail(fam, f"the covariance built ({kind}) lives in the memory of the values it was built from"
+                     + (": writing an element of one changes the other" if np.asarray(src).tobytes() != ref else ""), inp,
+                     observed="np.may_share_memory(new, source) is True", expected="no shared memory")
+            continue
+        if owner is not None:
+            sh = [x for x in shared_cells(c, src) if x[0] != "man-object"]
+            if sh:
+                out.fail(fam, f"the covariance built ({kind}) and its source have the mutable object {sh[0][1]} in common", inp, observed=sh[0][1], expected="no mutable object reachable from both")
+                continue
+        # behaviour, both directions
+        n_new, n_src = len(new_muts(c, cowner)), len(src_muts(src, owner))
+        for direction, n in (("new", n_new), ("source", n_src)):
+            for mi in range(n):
+                how, res = attempt(lambda: build(kind))
+                if how != "ok":
+                    break
+                src, owner, c, cowner = res
+                if direction == "new":
+                    if cowner is owner and mi == 4:
+                        continue    # attaching the new covariance to the state that owns the source replaces the source: nothing to compare
+                    field, mut = new_muts(c, cowner)[mi]
+                    ref = watch(src, owner)
+                    how, err = attempt(mut)
+                    now = watch(src, owner)
+                else:
+                    field, mut = src_muts(src, owner)[mi]
+                    ref = snap(c)
+                    how, err = attempt(mut)
+                    now = snap(c)
+                if how != "ok":
+                    out.tally(f"mutation-raised=cov-{field}:{type(err).__name__}")
+                out.count(key=("cov-ctor", kind, direction, mi, spec["form"], spec["frame"], spec.get("covframe")), kind="cov-constructor-separation", ctor=kind)
+                if now != ref:
+                    out.fail(fam, f"covariance built ({kind}): changing the {direction} one ({field}) shows in the other", dict(inp, direction=direction, mutation=field),
+                             observed=str(now)[:300], expected=str(ref)[:300])
+
+
+def check_sv_constructors(out, rng, spec):
+    """every constructor form of StateVector / Orbit (coordinates as list, tuple, ndarray, StateVector, Orbit; form and frame by name or as
+    objects; propagator by name, as object, None): the values are those given, no memory is shared with the coordinates given, and changing
+    one afterwards never shows in the other"""
+    import numpy as np
+    from beyond.orbits import StateVector, Orbit
+    from beyond.propagators.kepler import Kepler
+    for kind in ("list", "tuple", "ndarray", "ndarray-view", "statevector", "orbit"):
+        for cls in ("StateVector", "Orbit"):
+            src_sv = make_state(rng, dict(spec, orbit=(kind == "orbit")))
+            raw = np.array(src_sv)
+            src = {"list": lambda: [float(v) for v in raw], "tuple": lambda: tuple(float(v) for v in raw), "ndarray": lambda: raw,
+                   "ndarray-view": lambda: np.concatenate([raw, raw])[3:9], "statevector": lambda: src_sv, "orbit": lambda: src_sv}[kind]()
+            by_name = rng.random() < 0.5
+            form = src_sv.form.name if by_name else src_sv.form
+            frame = src_sv.frame.name if by_name else src_sv.frame
+            prop = rng.choice(["Kepler", Kepler(), None])
+            inp = {"spec": spec, "ctor": kind, "cls": cls}
+            fam = f"shared-coord-after-ctor-{kind}"
+            ref_src = snap_full(src) if isinstance(src, StateVector) else repr(list(np.asarray(src, dtype=float)))
+            how, new = attempt(lambda: StateVector(src, src_sv.date, form, frame) if cls == "StateVector" else Orbit(src, src_sv.date, form, frame, prop))
+            out.count(key=("sv-ctor", kind, cls, spec["form"], spec["frame"], by_name), kind="sv-constructor", ctor=kind)
+            if how != "ok":
+                out.fail(f"convert-raises-ctor-{kind}", f"{cls}({kind}) raised {type(new).__name__}: {new}", inp, observed=repr(new))
+                continue
+            want = np.asarray(src, dtype=float)
+            if np.asarray(new).tobytes() != want.tobytes() or new.form is not src_sv.form or new.frame is not src_sv.frame:
+                out.fail(f"ctor-values-{kind}", f"{cls}({kind}) does not hold the values / form / frame it was given", inp,
+                         observed=[float(v) for v in np.asarray(new)], expected=[float(v) for v in want])
+                continue
+            now_src = snap_full(src) if isinstance(src, StateVector) else repr(list(np.asarray(src, dtype=float)))
+            if now_src != ref_src:
+                out.fail(f"receiver-changed-ctor-{kind}", f"{cls}({kind}) changed the coordinates it was given", inp)
+                continue
+            if isinstance(src, np.ndarray) and np.may_share_memory(np.asarray(new), np.asarray(src)):
+                out.fail(fam, f"{cls}({kind}) lives in the memory of the coordinates it was built from", inp, observed="np.may_share_memory(new, source) is True")
+                continue
+            if isinstance(src, StateVector):
+                sh = shared_cells(new, src)
+                if sh:
+                    out.fail(fam, f"{cls}({kind}) and its source have the mutable object {sh[0][1]} in common", inp, observed=sh[0][1])
+                    continue
+            # behaviour
+            ref_new = snap_full(new)
+            if isinstance(src, np.ndarray):
+                src[0] = 1.0
+                src *= 2.0
+            elif isinstance(src, list):
+                src[0] = 1.0
+            if snap_full(new) != ref_new:
+                out.fail(fam, f"{cls}({kind}): changing the coordinates given to the constructor afterwards shows in the object", inp)
+                continue
+            ref_src = snap_full(src) if isinstance(src, StateVector) else repr(list(np.asarray(src, dtype=float)))
+            new[1] = 0.5
+            new *= 1.5
+            new.form = "cartesian" if new.form.name != "cartesian" else "spherical"
+            now_src = snap_full(src) if isinstance(src, StateVector) else repr(list(np.asarray(src, dtype=float)))
+            if now_src != ref_src:
+                out.fail(fam, f"{cls}({kind}): changing the new object shows in the coordinates it was built from", inp)
+
+
 # ---------------------------------------------------------------- oracle: failing changes
 
+class isolated_frame:
+    """a frame whose centre has no link to any other centre: every transformation to it raises inside Frame.transform"""
+
+    def __init__(self, like="EME2000"):
+        self.like = like
+
+    def __enter__(self):
+        from beyond.frames import frames, center
+        self.prev = frames.dynamic.get("Isolated")
+        base = frames.get_frame(self.like)
+        frames.Frame("Isolated", base.orientation, center.Center("Isolated", body=base.center.body), exists_warning=False)
+        return "Isolated"
+
+    def __exit__(self, *a):
+        from beyond.frames import frames
+        frames.dynamic.pop("Isolated", None)
+        if self.prev is not None:
+            frames.dynamic["Isolated"] = self.prev
+        return False
+
+
+class eop_error_policy:
+    """`eop.missing_policy = error`: a date without Earth-orientation data makes every date-dependent rotation raise"""
+
+    def __enter__(self):
+        from beyond.config import config
+        self.had = "eop" in config
+        self.old = dict(config.get("eop", fallback={}) or {}) if self.had else None
+        config.update({"eop": dict(self.old or {}, missing_policy="error")})
+
+    def __exit__(self, *a):
+        from beyond.config import config
+        if self.had:
+            config["eop"] = self.old
+        else:
+            config.pop("eop", None)
+        return False
+
+
+import contextlib
+
+FAIL_CASES = [("form", "unknown-form", True), ("frame", "unknown-frame", True), ("frame", "to-hill", False), ("frame", "from-hill", False),
+              ("frame", "unreachable-centre", False), ("frame", "eop-error", False), ("frame", "eop-error-stale-parent", False),
+              ("cov.frame", "cov-unknown-frame", True), ("cov.frame", "cov-to-hill", True),
+              ("cov.frame", "cov-eop-error", True)]
+
+
+def failing_assignment(sv, tag):
+    """-> (context manager, thunk) of one assignment that has to raise"""
+    cur = sv._data["frame"].name
+    other = "ITRF" if cur != "ITRF" else "TOD"
+    # under the 'error' policy the rotations that read the date's cached EOP values still work (TOD -> MOD, PEF <-> ITRF ...);
+    # every path to or from EME2000 needs the time-scale offsets of the date and raises
+    eop_target = "EME2000" if cur != "EME2000" else "ITRF"
+    if tag == "unknown-form":
+        return contextlib.nullcontext(), lambda: setattr(sv, "form", "no_such_form")
+    if tag == "unknown-frame":
+        return contextlib.nullcontext(), lambda: setattr(sv, "frame", "NoSuchFrame")
+    if tag in ("to-hill", "from-hill"):
+        return contextlib.nullcontext(), lambda: setattr(sv, "frame", "Hill" if tag == "to-hill" else "EME2000")
+    if tag == "unreachable-centre":
+        return isolated_frame(other), lambda: setattr(sv, "frame", "Isolated")
+    if tag == "eop-error":
+        return eop_error_policy(), lambda: setattr(sv, "frame", eop_target)
+    if tag == "eop-error-stale-parent":
+        # the state (now in TOD) can be rotated to MOD with the values cached on its Date; its covariance, attached while the state was
+        # in EME2000, has to go through EME2000 and cannot: the part of the assignment that works must not stay
+        return eop_error_policy(), lambda: setattr(sv, "frame", "MOD")
+    if tag == "cov-unknown-frame":
+        return contextlib.nullcontext(), lambda: setattr(sv.cov, "frame", "NoSuchFrame")
+    if tag == "cov-to-hill":
+        return contextlib.nullcontext(), lambda: setattr(sv.cov, "frame", "Hill")
+    if tag == "cov-eop-error":
+        return eop_error_policy(), lambda: setattr(sv.cov, "frame", eop_target)
+    raise ValueError(tag)
+
+
 def check_failed_change(out, rng, spec):
-    """O3: a failing form / frame change leaves form, frame, metadata and the physical state as they were"""
+    """O3: a failing form / frame change — unknown name, untransformable (Hill) frame, a frame whose centre cannot be reached, a date without
+    Earth-orientation data under the 'error' policy; on the state and on its covariance; from whatever form the state is held in — leaves
+    form, frame, metadata, covariance and the physical state as they were, and the object usable"""
     from beyond.frames.frames import get_frame
-    cases = [("form", "no_such_form", "unknown-form", True), ("frame", "NoSuchFrame", "unknown-frame", True),
-             ("frame", "Hill", "to-hill", False)]
-    for attr, value, tag, exact in cases + [("frame", "EME2000", "from-hill", False)]:
-        sv = make_state(rng, spec)
+    for attr, tag, exact in FAIL_CASES:
+        if tag.startswith("cov-") and not spec.get("cov"):
+            continue
+        if tag == "eop-error-stale-parent":
+            if not spec.get("cov") or spec.get("covframe"):
+                continue
+            sv = make_state(rng, dict(spec, frame="EME2000"))
+            sv.frame = "TOD"
+        else:
+            sv = make_state(rng, spec)
         if tag == "from-hill":
             sv._data["frame"] = get_frame("Hill")
             if sv._data.get("cov") is not None:
                 sv._data["cov"]._data["frame"] = sv._data["frame"]
         before = snap_full(sv)
         ids = (id(sv._data["form"]), id(sv._data["frame"]))
-        c0 = cart_state(sv)
-        try:
-            setattr(sv, attr, value)
-            raised = False
-        except Exception:
-            raised = True
-        out.count(key=(tag, spec["form"], spec["frame"], spec["cov"], spec["orbit"]), kind="failed-change", case=tag)
-        if not raised:
-            out.fail(f"no-error-{tag}", f"{attr} = {value!r} did not raise", {"spec": spec, "case": tag})
+        how0, c0 = attempt(lambda: cart_state(sv))
+        cm, thunk = failing_assignment(sv, tag)
+        with cm:
+            how, err = attempt(thunk)
+        out.count(key=(tag, spec["form"], spec["frame"], spec["cov"], spec["orbit"]), kind="failed-change", case=tag, form=spec["form"])
+        inp = {"spec": spec, "case": tag}
+        if how == "ok":
+            if tag in ("cov-eop-error", "eop-error-stale-parent"):
+                out.tally(f"{tag}-not-needed")     # e.g. local orientation -> frame of the state: no date-dependent rotation involved
+                continue
+            out.fail(f"no-error-{tag}", f"{attr} assignment ({tag}) did not raise", inp)
+            continue
+        if how == "hang":
+            out.fail(f"failed-change-hangs-{tag}", f"{attr} assignment ({tag}) does not return", inp, observed=repr(err))
             continue
         after = snap_full(sv)
-        inp = {"spec": spec, "case": tag}
         if ids != (id(sv._data["form"]), id(sv._data["frame"])):
             out.fail(f"failed-change-label-{tag}", f"after the failed {attr} change form/frame differ from before", inp,
                      observed=(after[0][1], after[0][2]), expected=(before[0][1], before[0][2]))
         elif exact and after != before:
-            out.fail(f"failed-change-state-{tag}", f"after the failed {attr} change the object differs from before", inp,
+            out.fail(f"failed-change-state-{tag}", f"after the failed {attr} change the object differs from before ({snap_diff(before, after)})", inp,
                      observed=str(after)[:300], expected=str(before)[:300])
         elif not exact:
             if (after[0][4], after[1]) != (before[0][4], before[1]):
-                out.fail(f"failed-change-meta-{tag}", f"after the failed {attr} change metadata / covariance differ", inp,
+                out.fail(f"failed-change-meta-{tag}", f"after the failed {attr} change metadata / covariance differ ({snap_diff(before, after)})", inp,
                          observed=str(after[0][4])[:300], expected=str(before[0][4])[:300])
-            elif not all(math.isfinite(float(v)) for v in c0):
+            elif how0 != "ok" or not all(math.isfinite(float(v)) for v in c0):
                 out.tally("failed-change-degenerate-state-skipped")   # e.g. tle/keplerian elements of a state that is hyperbolic relative to a rotating frame: NaN before the call
-            elif not same_physical(c0, cart_state(sv)):
-                out.fail(f"failed-change-values-{tag}", f"after the failed {attr} change the physical state differs", inp,
-                         observed=list(map(float, cart_state(sv))), expected=list(map(float, c0)))
+            else:
+                # the elements now held, read under the (unchanged) form label, must denote the state held before; a library call that
+                # raises or does not return on them is the outcome of this case
+                how1, c1 = attempt(lambda: cart_state(sv))
+                if how1 != "ok" or not same_physical(c0, c1):
+                    import numpy as np
+                    out.fail(f"failed-change-values-{tag}", f"after the failed {attr} change (state held in form {after[0][1]}) the physical state differs"
+                             + ("" if how1 == "ok" else f": reading the elements under the form label {'does not return' if how1 == 'hang' else 'raises'}"), inp,
+                             observed=[float(v) for v in np.asarray(sv)], expected=[float.fromhex(v) for v in before[0][3]])
     # copy(...) that fails: receiver bit-identical
-    for kw, tag in (({"form": "no_such_form"}, "copy-unknown-form"), ({"frame": "NoSuchFrame"}, "copy-unknown-frame"), ({"frame": "Hill"}, "copy-to-hill")):
+    for kw, tag in (({"form": "no_such_form"}, "copy-unknown-form"), ({"frame": "NoSuchFrame"}, "copy-unknown-frame"), ({"frame": "Hill"}, "copy-to-hill"),
+                    ({"frame": "Isolated"}, "copy-unreachable-centre"), ({"frame": "EME2000" if spec["frame"] != "EME2000" else "ITRF"}, "copy-eop-error")):
         sv = make_state(rng, spec)
         before = snap_full(sv)
-        try:
-            sv.copy(**kw)
+        cm = isolated_frame() if tag == "copy-unreachable-centre" else (eop_error_policy() if tag == "copy-eop-error" else contextlib.nullcontext())
+        with cm:
+            how, err = attempt(lambda: sv.copy(**kw))
+        if how == "ok":
             out.fail(f"no-error-{tag}", f"copy({kw}) did not raise", {"spec": spec, "case": tag})
-        except Exception:
-            pass
-        out.count(key=(tag, spec["form"], spec["frame"], spec["cov"]), kind="failed-change", case=tag)
+        out.count(key=(tag, spec["form"], spec["frame"], spec["cov"]), kind="failed-change", case=tag, form=spec["form"])
         if snap_full(sv) != before:
-            out.fail(f"receiver-changed-{tag}", f"failing copy({kw}) changed its receiver", {"spec": spec, "case": tag},
+            out.fail(f"receiver-changed-{tag}", f"failing copy({kw}) changed its receiver ({snap_diff(before, snap_full(sv))})", {"spec": spec, "case": tag},
                      observed=str(snap_full(sv))[:300], expected=str(before)[:300])
 
 
@@ -513,6 +1066,108 @@ def check_roundtrip_types(out, rng, spec):
         out.fail("roundtrip-propagator", "as_orbit does not attach the propagator", inp)
 
 
+# ---------------------------------------------------------------- oracle: the standard library's copy protocol
+
+def check_deepcopy(out, rng, spec):
+    """copy.deepcopy(sv) is a copy of a state vector: it must not have a mutable cell in common with the original"""
+    import copy
+    sv = make_state(rng, spec)
+    before = snap_full(sv)
+    how, new = attempt(lambda: copy.deepcopy(sv))
+    out.count(key=("deepcopy", spec["form"], spec["frame"], spec["orbit"], spec["cov"], spec["mans"], spec.get("meta")), kind="deepcopy")
+    inp = {"spec": spec, "op": "copy.deepcopy"}
+    if how != "ok":
+        out.fail("convert-raises-deepcopy", f"copy.deepcopy raised {type(new).__name__}: {new}", inp, observed=repr(new))
+        return
+    if snap_full(sv) != before:
+        out.fail("receiver-changed-deepcopy", "copy.deepcopy changed its argument", inp)
+        return
+    if snap(new) != snap(sv):
+        out.fail("deepcopy-values", "copy.deepcopy does not preserve values and metadata", inp, observed=str(snap(new))[:300], expected=str(snap(sv))[:300])
+        return
+    sh = shared_cells(sv, new)
+    if sh:
+        field, pa, pb, obj = sh[0]
+        ref = snap_full(sv)
+        shows = poke(obj) and snap_full(sv) != ref
+        out.fail("shared-data-after-deepcopy", f"after copy.deepcopy, {pb} of the copy and {pa} of the original are the same mutable object ({len(sh)} shared cells: "
+                 + ", ".join(sorted({x[0] for x in sh})) + ")" + (": a change made in place through one shows in the other" if shows else ""), inp,
+                 observed=f"{type(obj).__name__} {pa} is {pb}", expected="no mutable object reachable from both")
+
+
+# ---------------------------------------------------------------- oracle: histories
+
+NEW_OBJECT_OPS = {"new", "copy", "copyf", "copyfr", "aso", "assv", "pickle", "ctor"}
+TRANSFORM_OPS = {"setfr", "setfrx"}
+
+
+def check_sequence(out, ops, kep):
+    """the statement over histories: the operation sequences of the correspondence run on real objects, judged by the statement itself —
+    after every step (a) an operation that returns a new object left every existing object bit-identical, (b) an in-place operation on one
+    object left every OTHER object bit-identical, (c) an operation that raised left its own object as it was (physically, when a transformation
+    had started), (d) no two objects have a mutable cell in common except maneuver objects (open finding)"""
+    import numpy as np
+    real = Real()
+    real.kep = kep
+    inp = {"ops": ops, "kep": kep}
+    for n, op in enumerate(ops):
+        nv = len(real.vars)
+        before = [snap_full(v) for v in real.vars]
+        tgt = int(op[1]) if op[0] != "new" and real.vars else None
+        c0 = None
+        if op[0] in TRANSFORM_OPS and tgt is not None and tgt < nv:
+            how0, c0 = attempt(lambda: cart_state(real.vars[tgt]))
+            if how0 != "ok" or not all(math.isfinite(float(v)) for v in c0):
+                c0 = None
+        status = real.run(op)
+        after = [snap_full(v) for v in real.vars[:nv]]
+        out.count(key=(n, tuple(tuple(o) for o in ops)), kind="history-step", op=op[0], status=status.split(":")[0])
+        where = f"step {n} ({' '.join(op)} -> {status})"
+        for j in range(nv):
+            if after[j] == before[j]:
+                continue
+            part = snap_diff(before[j], after[j])
+            if op[0] in NEW_OBJECT_OPS:
+                out.fail(f"seq-receiver-changed-{op[0]}", f"{where}: an operation that returns a new object changed object {j} ({part})", dict(inp, step=n, object=j),
+                         observed=str(after[j])[:300], expected=str(before[j])[:300])
+                return
+            if j != tgt:
+                out.fail(f"seq-other-changed-{op[0]}-{field_of(part) if part not in ('values', 'form', 'frame', 'type') else part}",
+                         f"{where}: changing object {tgt} in place shows in object {j} ({part})", dict(inp, step=n, object=j),
+                         observed=str(after[j])[:300], expected=str(before[j])[:300])
+                return
+            if status != "ok":
+                # the object the failing assignment was made on
+                if op[0] in TRANSFORM_OPS and status not in ("unknown-frame",) and part == "values" and c0 is not None:
+                    how1, c1 = attempt(lambda: cart_state(real.vars[j]))
+                    if how1 == "ok" and same_physical(c0, c1):
+                        continue      # converted to cartesian and back: same state up to rounding
+                    out.fail(f"seq-failed-change-values-{op[0]}-{status}", f"{where}: after the failed frame change (state held in form {after[j][0][1]}) the physical state differs", dict(inp, step=n, object=j),
+                             observed=[float(v) for v in np.asarray(real.vars[j])], expected=[float.fromhex(v) for v in before[j][0][3]])
+                    return
+                if op[0] in TRANSFORM_OPS and c0 is None and part == "values":
+                    out.tally("failed-change-degenerate-state-skipped")
+                    continue
+                out.fail(f"seq-failed-change-{op[0]}-{status}", f"{where}: the operation raised and left its object changed ({part})", dict(inp, step=n, object=j),
+                         observed=str(after[j])[:300], expected=str(before[j])[:300])
+                return
+        if status.startswith("hang"):
+            out.fail(f"seq-hang-{op[0]}", f"{where}: the operation does not return", dict(inp, step=n))
+            return
+        vs = real.vars
+        for i in range(len(vs)):
+            for j in range(i + 1, len(vs)):
+                sh = [x for x in shared_cells(vs[i], vs[j]) if x[0] != "man-object"]
+                if sh:
+                    field, pa, pb, obj = sh[0]
+                    ref = snap_full(vs[j])
+                    shows = poke(obj) and snap_full(vs[j]) != ref
+                    out.fail(f"seq-shared-{field}-after-{op[0]}", f"{where}: {pa} of object {i} and {pb} of object {j} are the same mutable object"
+                             + (": a change made in place through one shows in the other" if shows else ""), dict(inp, step=n, objects=[i, j]),
+                             observed=f"{type(obj).__name__} {pa} is {pb}", expected="no mutable object reachable from both")
+                    return
+
+
 def oracle(ctx, widened):
     out = Outcome()
     rng = ctx.rng
@@ -520,20 +1175,34 @@ def oracle(ctx, widened):
     for form in FORMS:
         check_access(out, rng, form)
     specs = []
-    # a covering set first (every optional part present), then random ones
+    # a covering set first (every optional part present; every container empty or created by a mere read), then random ones
     for orbit in (False, True):
-        specs.append(rand_spec(rng, orbit=orbit, cov=True, mans=2, meta=True, covframe=None))
-    for _ in range(40 if big else 3):
+        specs.append(rand_spec(rng, orbit=orbit, cov=True, mans=2, meta=1, covframe=None, lazy=False))
+        specs.append(rand_spec(rng, orbit=orbit, cov=False, mans=0, meta=4 if orbit else 2, lazy=True))
+    specs.append(rand_spec(rng, cov=True, mans=1, meta=3, lazy=True))
+    for _ in range(40 if big else 2):
         specs.append(rand_spec(rng))
     for spec in specs:
         check_separation(out, rng, spec)
-    for _ in range(300 if big else 30):
+    # failing setters: from EVERY form, then random states
+    for form in FORMS:
+        check_failed_change(out, rng, rand_spec(rng, form=form, cov=True))
+    for _ in range(300 if big else 20):
         check_failed_change(out, rng, rand_spec(rng))
+    for k in range(60 if big else 6):
+        spec = rand_spec(rng, covframe=[None, "TNW", "QSW", None][k % 4])
+        check_cov_constructors(out, rng, spec)
+        check_sv_constructors(out, rng, spec)
+        check_deepcopy(out, rng, dict(spec, meta=spec["meta"] or 1))
     for k in range(300 if big else 30):
         spec = rand_spec(rng, cov=(k % 2 == 0))
         check_pickle(out, rng, spec)
         check_roundtrip_types(out, rng, spec)
-    out.sample({"checked": "copy()/copy(form)/copy(frame)/as_orbit/as_statevector then every in-place mutation of one object; deep snapshot of the other must not move"})
+    for _ in range(3000 if big else 250):
+        ops = rand_ops(rng)
+        kep = [rand_coord(rng) for _ in range(2)]
+        check_sequence(out, resolve_indices(ops, kep), kep)
+    out.sample({"checked": "copy()/copy(form)/copy(frame)/copy(same)/as_orbit/as_statevector/pickle then identity partition of the two object graphs and every in-place mutation of one object; deep snapshot of the other must not move"})
     return out
 
 
@@ -543,9 +1212,17 @@ def replay(f):
     i = f["input"]
     rng = random.Random(0)
     fam = f["family"]
-    if fam.startswith("shared-") or fam.startswith("receiver-changed-") or fam.startswith("convert-raises"):
+    if fam.startswith("seq-") or fam == "heap-sequence":
+        check_sequence(out, i["ops"], i["kep"])
+    elif fam.endswith("deepcopy") or fam == "deepcopy-values":
+        check_deepcopy(out, rng, i["spec"])
+    elif "ctor" in i and fam.startswith(("shared-cov", "convert-raises-cov", "receiver-changed-cov", "cov-ctor")):
+        check_cov_constructors(out, rng, i["spec"])
+    elif "ctor" in i:
+        check_sv_constructors(out, rng, i["spec"])
+    elif fam.startswith("shared-") or fam.startswith("receiver-changed-") and "case" not in i or fam.startswith("convert-raises"):
         check_separation(out, rng, i["spec"])
-    elif fam.startswith("failed-change") or fam.startswith("no-error"):
+    elif fam.startswith("failed-change") or fam.startswith("no-error") or "case" in i:
         check_failed_change(out, rng, i["spec"])
     elif fam.startswith("access-") or fam.startswith("foreign-"):
         check_access(out, rng, i["form"])
@@ -626,7 +1303,7 @@ def extract(ctx):
 # ---------------------------------------------------------------- correspondence: real objects vs the heap model
 
 STR_TOK = {"sat": 1, "a": 2, "b": 3, "x": 6}
-ERR_KINDS = [("UnknownFormError", "unknown-form"), ("UnknownFrameError", "unknown-frame"), ("RuntimeError", "runtime"),
+ERR_KINDS = [("UnknownFormError", "unknown-form"), ("UnknownFrameError", "unknown-frame"), ("EopError", "eop"), ("IndexError", "index"), ("RuntimeError", "runtime"),
              ("ValueError", "value"), ("TypeError", "type"), ("AttributeError", "attr"), ("KeyError", "attr")]
 
 
@@ -643,13 +1320,14 @@ class Real:
 
     def __init__(self):
         self.vars = []
+        self.ext = []       # arrays handed to constructors: nothing built from them may live in their memory
         self.init = {}      # k -> bytes of the initial coordinate / covariance values
         self.dates = {}     # k -> Date
         self.datekey = {}
 
     def new(self, k, orbit, form, frame, meta, nmans, cov, covframe):
         import numpy as np
-        spec = {"kep": self.kep[k], "form": form, "frame": frame, "orbit": orbit, "cov": False, "mans": nmans, "meta": meta, "dt": 60 * k}
+        spec = {"kep": self.kep[k], "form": form, "frame": frame, "orbit": orbit, "cov": False, "mans": nmans, "meta": int(meta), "dt": 60 * k}
         sv = make_state(None, spec)
         self.init[k] = np.asarray(sv).tobytes()
         self.dates[k] = sv._data["date"]
@@ -667,51 +1345,87 @@ class Real:
         vals = np.diag([1.0e4, 2.0e4, 3.0e4, 1.0e-2, 2.0e-2, 3.0e-2]) * (1 + (k % 7))
         vals[0, 1] = vals[1, 0] = 12.5
         self.init[k] = np.array(vals).tobytes()
+        self.ext.append(vals)
         sv.cov = Cov(sv, vals, sv.frame)
 
     def run(self, op):
-        from beyond.propagators.kepler import Kepler
-        from beyond.orbits.man import ImpulsiveMan
-        v = self.vars
-        name, a = op[0], op[1:]
+        """status of one operation; whatever the library does (raise, not return) is the outcome of this operation"""
         try:
-            if name == "new":
-                self.new(int(a[0]), a[1] == "1", a[2], a[3], a[4] == "1", int(a[5]), a[6] == "1", a[7])
-            elif name == "copy":
-                v.append(v[int(a[0])].copy())
-            elif name == "copyf":
-                v.append(v[int(a[0])].copy(form=a[1]))
-            elif name == "copyfr":
-                v.append(v[int(a[0])].copy(frame=a[1]))
-            elif name == "aso":
-                v.append(v[int(a[0])].as_orbit(Kepler()))
-            elif name == "assv":
-                v.append(v[int(a[0])].as_statevector())
-            elif name == "setf":
-                v[int(a[0])].form = a[1]
-            elif name == "setfr":
-                v[int(a[0])].frame = a[1]
-            elif name == "seta":
-                if int(a[2]) % 2:
-                    setattr(v[int(a[0])], a[1], int(a[2]))
-                else:
-                    v[int(a[0])][a[1]] = int(a[2])
-            elif name == "seti":
-                v[int(a[0])][int(a[1])] = int(a[2])
-            elif name == "covfr":
-                v[int(a[0])].cov.frame = a[1]
-            elif name == "addman":
-                sv = v[int(a[0])]
-                sv.maneuvers.append(ImpulsiveMan(sv._data["date"], [1.0, 0.0, 0.0], comment=f"m{a[1]}"))
-            elif name == "setcov":
-                self.setcov(int(a[0]), int(a[1]))
-            elif name == "pickle":
-                v.append(pickle.loads(pickle.dumps(v[int(a[0])])))
-            else:
-                return "bad-op"
-            return "ok"
+            with guard(1.0):
+                return self._run(op)
+        except Hang:
+            return "hang"
         except Exception as e:
             return err_kind(e)
+
+    def _run(self, op):
+        from beyond.propagators.kepler import Kepler
+        from beyond.orbits.man import ImpulsiveMan
+        from beyond.orbits.cov import Cov
+        from beyond.orbits import StateVector, Orbit
+        v = self.vars
+        name, a = op[0], op[1:]
+        if name == "new":
+            self.new(int(a[0]), a[1] == "1", a[2], a[3], int(a[4]), int(a[5]), a[6] == "1", a[7])
+        elif name == "copy":
+            v.append(v[int(a[0])].copy())
+        elif name == "copyf":
+            v.append(v[int(a[0])].copy(form=a[1]))
+        elif name == "copyfr":
+            v.append(v[int(a[0])].copy(frame=a[1]))
+        elif name == "aso":
+            v.append(v[int(a[0])].as_orbit(Kepler()))
+        elif name == "assv":
+            v.append(v[int(a[0])].as_statevector())
+        elif name == "ctor":     # the constructor given an existing state vector as coordinates
+            src = v[int(a[0])]
+            v.append(Orbit(src, src.date, src.form, src.frame, Kepler()) if a[1] == "1" else StateVector(src, src.date, src.form, src.frame))
+        elif name == "setf":
+            v[int(a[0])].form = a[1]
+        elif name == "setfr":
+            v[int(a[0])].frame = a[1]
+        elif name == "setfrx":   # a frame assignment made to fail by the environment
+            if a[2] == "iso":
+                with isolated_frame(a[1]) as nm:
+                    v[int(a[0])].frame = nm
+            else:
+                with eop_error_policy():
+                    v[int(a[0])].frame = a[1]
+        elif name == "seta":
+            if int(a[2]) % 2:
+                setattr(v[int(a[0])], a[1], int(a[2]))
+            else:
+                v[int(a[0])][a[1]] = int(a[2])
+        elif name == "seti":
+            v[int(a[0])][int(a[1])] = int(a[2])
+        elif name == "covfr":
+            v[int(a[0])].cov.frame = a[1]
+        elif name == "readman":  # a mere look at the maneuvers: the getter creates the list
+            bool(v[int(a[0])].maneuvers)
+        elif name == "addman":
+            sv = v[int(a[0])]
+            sv.maneuvers.append(ImpulsiveMan(sv._data["date"], [1.0, 0.0, 0.0], comment=f"m{a[1]}"))
+        elif name == "lappend":  # in-place changes of free metadata containers, through the public attribute access
+            getattr(v[int(a[0])], a[1]).append(int(a[2]))
+        elif name == "dset":
+            getattr(v[int(a[0])], a[1])["w"] = int(a[2])
+        elif name == "nappend":
+            v[int(a[0])].nested["k"].append(int(a[1]))
+        elif name == "aset":
+            v[int(a[0])].arr[0] = 0.5
+        elif name == "setcov":
+            self.setcov(int(a[0]), int(a[1]))
+        elif name == "covfrom":  # the constructor branch `values is a Cov`: takes the values and the frame of the source
+            sv = v[int(a[0])]
+            sv.cov = Cov(sv, v[int(a[1])].cov, None)
+        elif name == "pickle":
+            v.append(pickle.loads(pickle.dumps(v[int(a[0])])))
+        elif name == "dcopy":    # the standard library's deep copy (open finding: falls through to ndarray.__deepcopy__)
+            import copy
+            v.append(copy.deepcopy(v[int(a[0])]))
+        else:
+            return "bad-op"
+        return "ok"
 
     def dump(self):
         """(structure string with '$' for buffer contents, list of buffer contents, list of problems)"""
@@ -727,6 +1441,12 @@ class Real:
         seen, vals, problems, keep = {}, [], [], []
         clones = {}
 
+        def mem_root(arr):
+            """the object that owns the memory an array lives in (a view, or an array built on the buffer of another, is not its own owner)"""
+            while isinstance(arr.base, np.ndarray):
+                arr = arr.base
+            return arr if arr.base is None else arr.base
+
         def frame_str(x):
             """registry objects by name; clones (pickle / deepcopy make new Frame objects, compared by identity) numbered by first visit"""
             hill = type(x).__name__ == "HillFrame"
@@ -736,8 +1456,12 @@ class Real:
             keep.append(x)
             return f"{name}'{clones.setdefault(id(x), len(clones) + 1)}"
 
+        ext_roots = {id(mem_root(e)) for e in self.ext}
+
         def ident(key, obj):
             keep.append(obj)
+            if isinstance(key, tuple) and key[0] == "mem" and key[1] in ext_roots:
+                problems.append("a buffer lives in the memory of the array handed to the constructor")
             if key in seen:
                 return None, f"#{seen[key]}"
             seen[key] = sum(1 for v in seen.values() if v >= 0)
@@ -762,13 +1486,8 @@ class Real:
                 i, back = ident(id(x), x)
                 if back:
                     return back
-                owned = x.base is None
-                if owned:
-                    bi, bback = ident(("own", id(x)), x)
-                else:
-                    if type(x.base) is not np.ndarray or x.base.shape != (6,):
-                        problems.append(f"unexpected base {type(x.base).__name__}")
-                    bi, bback = ident(id(x.base), x.base)
+                root = mem_root(x)
+                bi, bback = ident(("mem", id(root)), root)
                 if bback:
                     sb = bback
                 else:
@@ -783,19 +1502,23 @@ class Real:
                 if dd is None:
                     vals.append(np.asarray(x).tobytes())
                     return f"C{i}(!,<$>)"
-                for part in (x.base, dd):
-                    if part is None:      # an unpickled array owns its memory
-                        continue
-                    if id(part) in seen or ("covpart", id(part)) in seen:
-                        problems.append("a covariance shares its buffer / dict with another object")
-                    seen[("covpart", id(part))] = -1
+                root = mem_root(x)
+                bi, bback = ident(("mem", id(root)), root)      # the 6x6 buffer: a cell of its own, numbered like every other
+                if bback:
+                    sb = bback
+                else:
+                    sb = f"B{bi}=<$>"
+                    vals.append(np.asarray(x).tobytes())
+                for key, part in ((("covpart", id(dd)), dd), (("covpart", id(x.__dict__)), x.__dict__)):
+                    if key in seen or id(part) in seen:
+                        problems.append("a covariance shares its _data / __dict__ with another object")
+                    seen[key] = -1
                     keep.append(part)
-                vals.append(np.asarray(x).tobytes())
                 fr = dd["frame"]
                 of = x.__dict__.get("_orb_frame")
                 frs = fr if isinstance(fr, str) else frame_str(fr)
                 ofs = frame_str(of)
-                return f"C{i}(<$>,{frs},{ofs},{ref(dd['orb'])})"
+                return f"C{i}({sb},{frs},{ofs},{ref(dd['orb'])})"
             if isinstance(x, Man):
                 i, back = ident(id(x), x)
                 return back or f"M{i}={x.comment[1:]}"
@@ -803,7 +1526,7 @@ class Real:
                 i, back = ident(id(x), x)
                 return back or f"P{i}"
             if isinstance(x, np.ndarray):
-                i, back = ident(id(x), x)
+                i, back = ident(("mem", id(mem_root(x))), x)
                 return back or f"A{i}={7 if x.tobytes() == np.arange(3.0).tobytes() else 0}"
             if isinstance(x, list):
                 i, back = ident(id(x), x)
@@ -812,13 +1535,10 @@ class Real:
                 i, back = ident(id(x), x)
                 if back:
                     return back
-                items = [(k, y) for k, y in sorted(x.items()) if not (k == "cov" and y is None) and not (k == "maneuvers" and isinstance(y, list) and not y)]
+                items = [(k, y) for k, y in sorted(x.items()) if not (k == "cov" and y is None)]
                 return f"D{i}{{" + ",".join(f"{k}={ref(y)}" for k, y in items) + "}"
             return f"?{type(x).__name__}"
         s = " ".join(ref(x) for x in self.vars)
-        for k in list(seen):
-            if isinstance(k, tuple) and k[0] == "covpart":
-                del seen[k]
         return s, vals, problems
 
 
@@ -945,52 +1665,61 @@ SET_NAMES = ["x", "vz", "a", "e", "i", "raan", "Omega", "Ω", "omega", "nu", "ν
              "label", "note", "r_dot", "theta_dot", "phi"]
 
 
-def rand_ops(rng, maxlen=6):
+META_KEYS = ["tags", "nested", "name", "arr", "zz"]
+OP_WEIGHTS = [("copy", 12), ("copyf", 9), ("copyfr", 10), ("aso", 7), ("assv", 5), ("ctor", 3), ("setf", 7), ("setfr", 11), ("setfrx", 4), ("seta", 5), ("seti", 3),
+              ("covfr", 5), ("readman", 5), ("addman", 5), ("lappend", 4), ("dset", 3), ("nappend", 3), ("aset", 2), ("setcov", 3), ("covfrom", 5), ("pickle", 5)]
+
+
+def rand_ops(rng, maxlen=6, dcopy=False):
+    """dcopy: also draw `copy.deepcopy(sv)` (correspondence only: its result shares data with the receiver — open finding —, so the
+    history oracle, which judges every step by the statement, is not fed with it)"""
     ops = []
     nvars = 0
     nnew = rng.choice([1, 1, 2])
     for k in range(nnew):
         ops.append(["new", str(k), str(int(rng.random() < 0.4)), rng.choice(FORMS), rng.choice(FRAMES + ["Hill"] * (rng.random() < 0.1)),
-                    str(int(rng.random() < 0.6)), str(rng.choice([0, 0, 1, 2])), str(int(rng.random() < 0.5)), rng.choice(["-", "-", "TNW", "QSW", "ITRF"])])
+                    str(rng.choice([0, 1, 1, 2, 3])), str(rng.choice([0, 0, 1, 2])), str(int(rng.random() < 0.5)), rng.choice(["-", "-", "TNW", "QSW", "ITRF"])])
         nvars += 1
     est = nvars   # upper bound of the number of variables; the model and the code agree on failures, so indices stay valid on both sides
+    names, weights = zip(*OP_WEIGHTS)
     for _ in range(rng.randint(1, maxlen)):
         i = str(rng.randrange(est))
-        r = rng.random()
         form = rng.choice(FORMS + ["circular", "mean", "no_such_form"] if rng.random() < 0.2 else FORMS)
         frame = rng.choice(FRAMES + ["WGS84", "NoSuchFrame", "Hill"] if rng.random() < 0.3 else FRAMES)
-        if r < 0.14:
-            op = ["copy", i]
-        elif r < 0.24:
-            op = ["copyf", i, form]
-        elif r < 0.36:
-            op = ["copyfr", i, frame]
-        elif r < 0.44:
-            op = ["aso", i]
-        elif r < 0.50:
-            op = ["assv", i]
-        elif r < 0.58:
-            op = ["setf", i, form]
-        elif r < 0.70:
-            op = ["setfr", i, frame]
-        elif r < 0.76:
-            op = ["seta", i, rng.choice(SET_NAMES), str(rng.randrange(10, 90))]
-        elif r < 0.80:
-            op = ["seti", i, str(rng.randrange(6)), str(rng.randrange(10, 90))]
-        elif r < 0.86:
-            op = ["covfr", i, rng.choice(FRAMES + ["TNW", "QSW", "NoSuchFrame"])]
-        elif r < 0.90:
-            op = ["addman", i, str(rng.randrange(10, 90))]
-        elif r < 0.94:
-            op = ["setcov", i, str(rng.randrange(2000, 2100))]
-        else:
-            op = ["pickle", i]
+        name = rng.choices(names, weights)[0]
+        if dcopy and rng.random() < 0.04:
+            name = "dcopy"
+        if name in ("copy", "aso", "assv", "readman", "pickle", "dcopy"):
+            op = [name, i]
+        elif name in ("copyf", "setf"):
+            op = [name, i, form]
+        elif name in ("copyfr", "setfr"):
+            op = [name, i, frame]
+        elif name == "ctor":
+            op = [name, i, str(int(rng.random() < 0.4))]
+        elif name == "setfrx":
+            # under the 'error' policy only the rotations that need the time-scale offsets of the date raise; every path to
+            # (or from) EME2000 does, so the EOP failure is asked for with that target (from EME2000 itself: nothing to do)
+            mode = rng.choice(["iso", "eop"])
+            op = [name, i, rng.choice(FRAMES) if mode == "iso" else "EME2000", mode]
+        elif name == "seta":
+            op = [name, i, rng.choice(SET_NAMES), str(rng.randrange(10, 90))]
+        elif name == "seti":
+            op = [name, i, str(rng.randrange(6)), str(rng.randrange(10, 90))]
+        elif name == "covfr":
+            op = [name, i, rng.choice(FRAMES + ["TNW", "QSW", "NoSuchFrame"])]
+        elif name in ("addman", "nappend", "aset"):
+            op = [name, i, str(rng.randrange(10, 90))]
+        elif name == "lappend":
+            op = [name, i, rng.choice(META_KEYS), str(rng.randrange(10, 90))]
+        elif name == "dset":
+            op = [name, i, rng.choice([k for k in META_KEYS if k != "arr"]), str(rng.randrange(10, 90))]
+        elif name == "setcov":
+            op = [name, i, str(rng.randrange(2000, 2100))]
+        elif name == "covfrom":
+            op = [name, i, str(rng.randrange(est))]
         ops.append(op)
-    return ops
-
-
-def fix_indices(ops):
-    """variable indices are taken modulo the number of variables that exist when the op runs: done by a dry run on the real code"""
+        est += 1
     return ops
 
 
@@ -1015,7 +1744,7 @@ def correspondence(ctx):
     # 2. operation sequences
     cases = []
     for _ in range(ctx.n(1200, 20000)):
-        ops = rand_ops(rng)
+        ops = rand_ops(rng, dcopy=True)
         kep = [rand_coord(rng) for _ in range(2)]
         cases.append((ops, kep))
     cases = [(resolve_indices(ops, kep), kep) for ops, kep in cases]
@@ -1046,6 +1775,8 @@ def resolve_indices(ops, kep):
         op = list(op)
         if op[0] != "new":
             op[1] = str(int(op[1]) % max(1, len(real.vars))) if real.vars else "0"
+            if op[0] == "covfrom":
+                op[2] = str(int(op[2]) % max(1, len(real.vars))) if real.vars else "0"
         real.run(op)
         fixed.append(op)
     return fixed
